@@ -12,7 +12,10 @@ LEVEL_TEXT = ("Proof + correspondence (PARTIAL for the script-splitting stage): 
               "class subtable); theorems: quantize yields a multiple of the step within half a step, first-definition-wins over "
               "sorted rules, the sort puts rules in specificity order whatever the input order, a lookup in that order gives a pair "
               "the value of the first covering rule, hence of the MOST SPECIFIC covering rule (0 when none covers) for every rule "
-              "list in which equally specific covering rules agree. The property itself is an executable Coq predicate (spec_C05) evaluated with vm_compute on what "
+              "list in which equally specific covering rules agree; and the CONNECTION TO THE UFO: for every font.groups dictionary "
+              "(the writer's own pruning always yields distinct, pairwise disjoint groups -- proved), every kerning dictionary with "
+              "one entry per key and group names that are not glyph names, and every pair of glyphs of the font, the lookup compiled "
+              "from getKerningPairs' sorted list gives the pair exactly quantize(UFO kerning value) (lookup_is_ufo_kerning). The property itself is an executable Coq predicate (spec_C05) evaluated with vm_compute on what "
               "an independent GPOS interpreter reads from compiled fonts, for every ordered glyph pair under every script tag; "
               "getKerningData's pair list is compared with the Gallina kerning_pairs. The per-script split/merge/registration of "
               "kernFeatureWriter is not transcribed into Coq: its effect is only checked through spec_C05 on generated fonts. "
